@@ -8,7 +8,7 @@
    run_crash .. k v s = the disk after the run is killed at its k-th file-system mutation (v: before it /
                    file created empty / file cut), run_full = after an uninterrupted run. *)
 From Coq Require Import List Bool Arith.
-From PAFC06 Require Import Model Proofs Proofs2 Proofs3 Gen Naming Naming2 Witness.
+From PAFC06 Require Import Model Proofs Proofs2 Proofs3 Raise Gen Naming Naming2 Witness.
 Import ListNotations.
 
 (* ---- complete once ---- *)
@@ -149,6 +149,38 @@ Theorem C06_neighbours_complete_once_partial : forall cd c g q runs dk tag h, fx
   /\ stored c g (run_full cd c tag h s).
 Proof. exact neighbours_complete_once. Qed.
 
+(* ---- death by a propagating exception (Raise.v) ----
+   xhistory lib_handlers cd c 0 runs empty_fs = the disk after any sequence of runs, each run to its end, killed at its k-th
+   mutation (Killed k v) or left by an exception raised in user code after k mutations (Raised k: modify_before_fit,
+   save_attributes, likelihood, visualize*, save_results, save_results_combined, modify_after_fit), the library's handlers
+   running while it propagates. *)
+(* `.completed` implies every promised result file *)
+Theorem C06_marker_implies_stored : forall cd c runs, fx_zip cd = true ->
+  let s := xhistory lib_handlers cd c 0 runs empty_fs in
+  eff_dir s Marker = Full Plain -> exists g, stored c g s.
+Proof. exact marker_implies_stored. Qed.
+
+(* the run after an exception death resumes, terminates normally and leaves the complete result it returns *)
+Theorem C06_resume_after_exception_repaired : forall c runs tag h,
+  let s := xhistory lib_handlers repaired c 0 runs empty_fs in
+  exists r, plan_out repaired c tag h s = inr r /\ stored c (r_tag r) (run_full repaired c tag h s)
+            /\ (r_samples r = Some (r_tag r) \/ r_samples r = expected_samples c (r_tag r)).
+Proof. exact resume_after_raise. Qed.
+
+(* and a later run does not sample again *)
+Theorem C06_complete_once_after_exception_repaired : forall c runs tag h g,
+  let s := xhistory lib_handlers repaired c 0 runs empty_fs in
+  stored c g s ->
+  plan_out repaired c tag h s = inr (mkres g (expected_samples c g) false)
+  /\ plan_sampled repaired c tag h s = false
+  /\ stored c g (run_full repaired c tag h s).
+Proof. exact once_after_raise. Qed.
+
+(* an exception death is, for the library's handlers, a kill before the next mutation: why the correspondence prints it so *)
+Theorem C06_exception_death_is_prefix : forall cd c runs tag s,
+  xhistory lib_handlers cd c tag runs s = history cd c tag (map as_crash runs) s.
+Proof. exact xhistory_lib. Qed.
+
 Print Assumptions C06_complete_once_partial.
 Print Assumptions C06_durable_crash_partial.
 Print Assumptions C06_durable_history_repaired.
@@ -162,3 +194,7 @@ Print Assumptions C06_neighbours_independent.
 Print Assumptions C06_neighbours_fresh.
 Print Assumptions C06_neighbours_durable.
 Print Assumptions C06_neighbours_complete_once_partial.
+Print Assumptions C06_marker_implies_stored.
+Print Assumptions C06_resume_after_exception_repaired.
+Print Assumptions C06_complete_once_after_exception_repaired.
+Print Assumptions C06_exception_death_is_prefix.
